@@ -14,7 +14,7 @@ from checks import C15
 
 THEOREMS = ["C16_refines", "C16_views_agree", "C16_last_set", "C16_isolation", "C16_isolation_unwired", "C16_spec",
             "C16_accessor_refines", "C16_accessor_reads_current", "C16_mounted_current", "C16_frozen_observer", "C16_accessor_spec",
-            "C16_accessor_renders_current_text", "C16_decode_sound"]
+            "C16_accessor_renders_current_text", "C16_decode_sound", "C16_provider_scoping", "C16_provider_handles"]
 PROPS = "theories/Props/C16.v"
 REGISTRY = {
     "level": "proof",
@@ -26,13 +26,17 @@ REGISTRY = {
             "exactly the observations of the abstract map context->locale; corollaries: every handle/scoped view/accessor shows the "
             "last locale set (C16_last_set), operations on one context never change another unless an initial-locale signal was "
             "wired and written (C16_isolation). The model is tied to /repo by running the real runtime on generated histories "
-            "(<=4 contexts, <=40 ops, flushes interleaved) and comparing every step. C16_accessor_reads_current / "
+            "(<=6 contexts, <=40 ops, flushes interleaved) and comparing every step. C16_accessor_reads_current / "
             "C16_mounted_current / C16_frozen_observer (Runtime/ContextAcc.v): an accessor of any flavour (9 macros x 10 kinds of "
             "context expression x with/without arguments) created at any point renders the current locale of its context after "
             "any continuation; effects over tracked flavours show it after a flush; the harness creates every accessor through "
             "the real macro with that flavour. C16_accessor_renders_current_text: the same for an accessor whose output is any "
             "function of the locale (t_plural!, t_format! families: expected text = fixed-locale macro of the model's current "
-            "locale, read back by decode, C16_decode_sound).",
+            "locale, read back by decode, C16_decode_sound). C16_provider_scoping / C16_provider_handles (Runtime/Provider.v): for "
+            "every forest of component-level providers (<I18nSubContextProvider> nested / siblings, lookups before, inside, "
+            "after) the owner-arena model of run_as_children scopes lexically, owners outside a provider keep their lookup, lazy "
+            "lookups are stable, and the operations the forest is checked as put each lookup's handle on that context; the "
+            "harness renders the real components natively.",
     "design_ref": "DESIGN.md §5 C16",
     "note": "Trusted: Coq kernel + vm_compute; hand-written model Runtime/Context.v; leptos' scheduler is observed (effects run at "
             "executor ticks), not modelled; harness build = ssr + reactive_graph/effects. No axioms.",
@@ -46,7 +50,7 @@ PRE = ("From Coq Require Import List NArith Bool.\nImport ListNotations.\n"
 
 NLOC = 8
 SUB_COOKIES = ["sub_a", "sub_b"]
-MAX_CTX, MAX_OPS, MAX_HANDLES, MAX_DEPTH = 4, 40, 9, 2
+MAX_CTX, MAX_OPS, MAX_HANDLES, MAX_DEPTH = 6, 40, 9, 2
 MAX_ACC, MAX_WATCH, MAX_FROZEN = 5, 4, 4
 
 # ------------------------------------------------------------------ accessor flavours (mirror of Runtime/ContextAcc.v)
@@ -144,6 +148,52 @@ def family_order(family):
 
 # ------------------------------------------------------------------ histories
 
+# component forests (mirror of Runtime/Provider.v): a node is "L" (a component calling use_i18n()) or
+# ("P", wire, cookie name, children) = <I18nSubContextProvider initial_locale=signal cookie_name=..> children </..>
+def forest_walk(forest, cur, nctx, out):
+    """lexical scoping: appends ("new", parent ctx) / ("probe", ctx) in rendering order; returns the context count"""
+    for n in forest:
+        if n == "L":
+            out.append(("probe", cur))
+        else:
+            out.append(("new", cur))
+            out.append(("probe", nctx))        # the lookup the harness places first inside every provider
+            nctx = forest_walk(n[3], nctx, nctx + 1, out)
+    return nctx
+
+
+def forest_wires(forest):
+    return [w for n in forest if n != "L" for w in ([n[1]] if n[1] is not None else []) + forest_wires(n[3])]
+
+
+def forest_str(forest):
+    return ".".join("L" if n == "L" else "P%s_%s[%s]" % ("-" if n[1] is None else n[1], C15.enc(n[2]), forest_str(n[3])) for n in forest)
+
+
+def forest_show(forest):
+    return " ".join("<Lookup/>" if n == "L" else "<I18nSubContextProvider%s%s> <Lookup/> %s </I18nSubContextProvider>" % (
+        "" if n[1] is None else " initial_locale=signal%d" % n[1], "" if n[2] is None else " cookie_name=%s" % n[2], forest_show(n[3]))
+        for n in forest).replace("  ", " ")
+
+
+def forest_coq(forest, tb):
+    t = "RNil"
+    for n in reversed(forest):
+        c = "RLookup" if n == "L" else "(RSubP %s %s %s)" % ("None" if n[1] is None else "(Some %d%%nat)" % n[1],
+                                                             "None" if n[2] is None else "(Some %s)" % tb.s(n[2]), forest_coq(n[3], tb))
+        t = "(RCons %s %s)" % (c, t)
+    return t
+
+
+def forest_fix(forest, fixsig):
+    return tuple("L" if n == "L" else ("P", fixsig(n[1]), n[2], forest_fix(n[3], fixsig)) for n in forest)
+
+
+def tup(x):
+    """json lists back to the tuples of a history"""
+    return tuple(tup(y) for y in x) if isinstance(x, (list, tuple)) else x
+
+
 class Shape:
     """structural simulation of a history (no locale values): what indices exist"""
 
@@ -162,6 +212,12 @@ class Shape:
             return op[1] < len(self.handles) and fl_frozen(op[2]) == fl_frozen(op[3])
         if k == "C":
             return op[1] < len(self.handles) and self.handles[op[1]][1] < MAX_DEPTH
+        if k == "T":
+            if not (op[1] < len(self.handles) and op[2]) or any(w >= self.nsig for w in forest_wires(op[2])):
+                return False
+            ev = []
+            n = forest_walk(op[2], self.handles[op[1]][0], self.nctx, ev)
+            return n <= MAX_CTX and len(self.handles) + sum(1 for e in ev if e[0] == "probe") <= MAX_HANDLES + 4
         return True
 
     def apply(self, op):
@@ -171,6 +227,10 @@ class Shape:
             self.nctx += 1
         elif k == "I":
             self.nsig += 1
+        elif k == "T":
+            ev = []
+            self.nctx = forest_walk(op[2], self.handles[op[1]][0], self.nctx, ev)
+            self.handles += [(e[1], 0) for e in ev if e[0] == "probe"]
         elif k == "C":
             c, d = self.handles[op[1]]
             self.handles.append((c, d + 1))
@@ -195,39 +255,102 @@ def valid(ops):
     return len(ops) <= MAX_OPS
 
 
-def remove_renumbered(ops, i):
-    """drop operation i; when it created a handle / context / caller signal, renumber later references
-    (None when a later operation refers to the removed object)"""
-    sh = Shape()
-    for o in ops[:i]:
-        sh.apply(o)
-    k = ops[i][0]
-    hidx = len(sh.handles) if k in ("N", "C") else None
-    cidx = sh.nctx if k == "N" else None
-    sidx = sh.nsig if k == "I" else None
+def renumber(later, hr, cr, sr):
+    """the operations `later` after the handles hr = (start, count), contexts cr and caller signals sr were removed
+    (None when one of them refers to a removed object)"""
+    def fixer(rng_):
+        start, count = rng_
 
-    def fix(v, removed):
-        if removed is None or v is None or v < removed:
-            return v
-        if v == removed:
-            raise KeyError
-        return v - 1
-    out = list(ops[:i])
+        def fix(v):
+            if v is None or not count or v < start:
+                return v
+            if v < start + count:
+                raise KeyError
+            return v - count
+        return fix
+    fh, fc, fs = fixer(hr), fixer(cr), fixer(sr)
+    out = []
     try:
-        for o in ops[i + 1:]:
+        for o in later:
             if o[0] == "N":
-                out.append(("N", fix(o[1], cidx), fix(o[2], sidx), o[3]))
+                out.append(("N", fc(o[1]), fs(o[2]), o[3]))
             elif o[0] in ("S", "U"):
-                out.append((o[0], fix(o[1], hidx), o[2]))
+                out.append((o[0], fh(o[1]), o[2]))
             elif o[0] in ("C", "A", "M"):
-                out.append((o[0], fix(o[1], hidx)) + tuple(o[2:]))
+                out.append((o[0], fh(o[1])) + tuple(o[2:]))
+            elif o[0] == "T":
+                out.append(("T", fh(o[1]), forest_fix(o[2], fs)))
             elif o[0] == "W":
-                out.append(("W", fix(o[1], sidx), o[2]))
+                out.append(("W", fs(o[1]), o[2]))
             else:
                 out.append(o)
     except KeyError:
         return None
     return out
+
+
+def remove_renumbered(ops, i):
+    """drop operation i; when it created handles / contexts / a caller signal, renumber later references
+    (None when a later operation refers to a removed object)"""
+    sh = Shape()
+    for o in ops[:i]:
+        sh.apply(o)
+    h0, c0, s0 = len(sh.handles), sh.nctx, sh.nsig
+    sh.apply(ops[i])
+    later = renumber(ops[i + 1:], (h0, len(sh.handles) - h0), (c0, sh.nctx - c0), (s0, sh.nsig - s0))
+    return None if later is None else list(ops[:i]) + later
+
+
+def forest_deletions(forest, h_off=0, c_off=0):
+    """every forest obtained by deleting one node (with its subtree): (forest, first handle, handles, first context, contexts)
+    of what disappears, counted from the first handle / context the forest creates"""
+    def size(n):
+        if n == "L":
+            return 1, 0
+        sub = [size(c) for c in n[3]]
+        return 1 + sum(x for x, _ in sub), 1 + sum(y for _, y in sub)
+    for idx, n in enumerate(forest):
+        kh, kc = size(n)
+        yield forest[:idx] + forest[idx + 1:], h_off, kh, c_off, kc
+        if n != "L":
+            for ch, a, b, c, d in forest_deletions(n[3], h_off + 1, c_off + 1):
+                yield forest[:idx] + (("P", n[1], n[2], ch),) + forest[idx + 1:], a, b, c, d
+        h_off, c_off = h_off + kh, c_off + kc
+
+
+def tree_simplifications(ops, i):
+    """histories in which one node of the forest of operation i is deleted (later references renumbered)"""
+    sh = Shape()
+    for o in ops[:i]:
+        sh.apply(o)
+    h0, c0 = len(sh.handles), sh.nctx
+    for forest, a, kh, c, kc in forest_deletions(ops[i][2]):
+        if not forest:
+            continue
+        later = renumber(ops[i + 1:], (h0 + a, kh), (c0 + c, kc), (0, 0))
+        if later is not None:
+            yield list(ops[:i]) + [("T", ops[i][1], forest)] + later
+    for forest in (forest_fix(ops[i][2], lambda w: None), forest_nocookie(ops[i][2])):
+        if forest != ops[i][2]:
+            yield list(ops[:i]) + [("T", ops[i][1], forest)] + list(ops[i + 1:])
+
+
+def forest_nocookie(forest):
+    return tuple("L" if n == "L" else ("P", n[1], None, forest_nocookie(n[3])) for n in forest)
+
+
+def gen_forest(rng, sh, budget_ctx, depth=0):
+    """a random forest: lookups before / between / after providers, nested and sibling providers"""
+    out = []
+    for _ in range(rng.choice([1, 2, 2, 3, 3, 4]) if depth == 0 else rng.choice([0, 1, 1, 2])):
+        if budget_ctx[0] > 0 and rng.random() < (0.5 if depth == 0 else 0.35) and depth < 2:
+            budget_ctx[0] -= 1
+            wire = rng.randrange(sh.nsig) if sh.nsig and rng.random() < 0.3 else None
+            ck = rng.choice(SUB_COOKIES) if rng.random() < 0.2 else None
+            out.append(("P", wire, ck, gen_forest(rng, sh, budget_ctx, depth + 1)))
+        else:
+            out.append("L")
+    return tuple(out)
 
 
 def gen_history(rng, family=None):
@@ -251,10 +374,16 @@ def gen_history(rng, family=None):
             wire = rng.randrange(sh.nsig) if sh.nsig and rng.random() < (0.7 if wired_bias else 0.2) else None
             ck = rng.choice(SUB_COOKIES) if rng.random() < 0.3 else None
             op = ("N", rng.randrange(sh.nctx), wire, ck)
-        elif r < 0.64:
+        elif r < 0.61:
             if sh.nsig >= 3:
                 continue
             op = ("I", rng.randrange(NLOC))
+        elif r < 0.64:
+            if len(sh.handles) >= MAX_HANDLES - 1:
+                continue
+            op = ("T", rng.randrange(len(sh.handles)), gen_forest(rng, sh, [MAX_CTX - sh.nctx]))
+            if not any(n != "L" for n in op[2]) and rng.random() < 0.7:
+                continue
         elif r < 0.74:
             if not sh.nsig:
                 continue
@@ -291,7 +420,8 @@ def gen_root(rng):
             parts.append("%s=%s" % (n, rng.choice(["fr", "fr-CA", "de", "en", "xx"])))
     cookie = "; ".join(parts) if parts or rng.random() < 0.5 else None
     accept = rng.choice([None, "de", "fr-CA,fr;q=0.9", "pt-PT,pt;q=0.8", "it", "en-GB,de;q=0.3"])
-    return {"enable": enable, "cookie": cookie, "accept": accept}
+    # component: the root context is created by rendering <I18nContextProvider> (else init_i18n_context_with_options)
+    return {"enable": enable, "cookie": cookie, "accept": accept, "component": rng.random() < 0.5}
 
 
 def flavour_corpus(family="loc", rounds=1):
@@ -326,6 +456,44 @@ def flavour_corpus(family="loc", rounds=1):
     return out
 
 
+def tree_corpus():
+    """component-level providers: Header / provider(Inner) / Footer, nested providers, sibling providers, empty providers,
+    wired and cookie-carrying providers; rendered under the root (created by init_i18n_context or by <I18nContextProvider>) and
+    under a sub-context; accessors that evaluate use_i18n() lazily on the first and on the last lookup; then a set through
+    every handle, an untracked set through the last one"""
+    P = lambda *ch, wire=None, ck=None: ("P", wire, ck, tuple(ch))
+    forests = [
+        ("L", P("L"), "L"),
+        (P(P("L"), "L"), "L"),
+        (P(), P("L"), "L"),
+        ("L", P("L", P(), "L"), "L", P(), "L"),
+        (P("L", wire=0), "L"),
+        ("L", P(ck="sub_a"), P(P(), ck="sub_b"), "L"),
+    ]
+    lazy = (fl(0, 1, 0), fl(2, 1, 0))          # t!(use_i18n(), ..), t_string!(use_i18n(), ..)
+    out = []
+    for fi, forest in enumerate(forests):
+        for component in (False, True):
+            for base in (0, 1):
+                ops = [("I", 2)] if forest_wires(forest) else []
+                if base:
+                    ops.append(("N", 0, None, None))
+                sh = Shape()
+                for o in ops:
+                    sh.apply(o)
+                h0 = len(sh.handles)
+                ops.append(("T", base, forest))
+                sh.apply(ops[-1])
+                new = list(range(h0, len(sh.handles)))
+                ops += [("A", new[0], lazy[0], lazy[1]), ("A", new[-1], lazy[0], lazy[1]), ("M", new[-1], lazy[1]), ("F",)]
+                for j, h in enumerate([base] + new):
+                    ops += [("S", h, 1 + (j + fi) % 7), ("F",)]
+                ops += [("U", new[-1], 0), ("G",), ("T", new[-1], ("L", P(), "L")), ("S", len(sh.handles) + 2, 3), ("F",)]
+                cookie = "sub_a=de; sub_b=fr" if fi == 5 else None
+                out.append(({"enable": component, "cookie": cookie, "accept": None, "component": component}, ops))
+    return out
+
+
 CORPUS = [
     # scoped views and accessors created before/after sets, tracked and untracked
     ({"enable": True, "cookie": "i18n_pref_locale=fr", "accept": "de"},
@@ -355,16 +523,28 @@ def op_word(op):
         return "%s%d,%d,%d" % ("M" if fl_tracked(op[2]) else "Y", op[1], op[2] % 1024, fl_payload(op[2]))
     if k in ("C", "I"):
         return "%s%d" % (k, op[1])
+    if k == "T":
+        return "T%d,%s" % (op[1], forest_str(op[2]))
     return k
 
 
 def line_of(root, ops):
-    return "16 %d %s %s %s" % (1 if root["enable"] else 0, C15.enc(root["cookie"]), C15.enc(root["accept"]),
+    return "16 %d %s %s %s" % ((1 if root["enable"] else 0) + (2 if root.get("component") else 0), C15.enc(root["cookie"]), C15.enc(root["accept"]),
                                " ".join(op_word(o) for o in ops))
 
 
-def coq_op(op, tb):
+def coq_ops(ops, tb):
+    sh, out = Shape(), []
+    for op in ops:
+        out.append(coq_op(op, tb, sh))
+        sh.apply(op)
+    return out
+
+
+def coq_op(op, tb, sh):
     k = op[0]
+    if k == "T":
+        return "(XRTree %d%%nat %d%%nat %d%%nat %d%%nat %s)" % (op[1], len(sh.handles), sh.nctx, sh.handles[op[1]][0], forest_coq(op[2], tb))
     if k == "N":
         return "(XRaw (RNewSub %d%%nat %s %s))" % (op[1], "None" if op[2] is None else "(Some %d%%nat)" % op[2], "None" if op[3] is None else "(Some %s)" % tb.s(op[3]))
     if k == "I":
@@ -514,6 +694,9 @@ def evaluate(ctx, exe, hist, tag="c16"):
     for i, ((root, ops), line, l15) in enumerate(zip(hist, outs, o15)):
         m = {"root": root, "ops": [list(o) for o in ops], "harness_line": line_of(root, ops), "impl_trace": line,
              "flavours": {"op%d" % j: [fl_name(f) for f in o[2:]] for j, o in enumerate(ops) if o[0] in ("A", "M")}}
+        trees = {"op%d" % j: "under the owner of handle %d: %s" % (o[1], forest_show(o[2])) for j, o in enumerate(ops) if o[0] == "T"}
+        if trees:
+            m["component_trees"] = trees
         rows = {fl_name(f): orc.texts(f, names) for o in ops if o[0] in ("A", "M") for f in o[2:] if orc.table(f) is not None}
         if rows:
             m["fixed_locale_oracle"] = rows
@@ -527,7 +710,7 @@ def evaluate(ctx, exe, hist, tag="c16"):
         o = C15.parse_out(l15)
         main = "(mk_main_opts %s COOKIE_PREFERED_LANG %s %s)" % ("true" if root["enable"] else "false", tb.jar(o["jar"]), tb.acc(o["accept"]))
         items.append("(mk_tcase (mk_xcase APP_ %s %s %s %s) %s)" % (
-            main, core.coq_list([coq_op(x, tb) for x in ops]), core.coq_list(map(coq_obs, ta)), core.coq_list(map(coq_obs, tb_)),
+            main, core.coq_list(coq_ops(ops, tb)), core.coq_list(map(coq_obs, ta)), core.coq_list(map(coq_obs, tb_)),
             orc.dectab(ops)))
         idx.append(i)
     pre = PRE + FL_DEFS + orc.defs() + "\n".join(tb.defs) + "\n"
@@ -561,6 +744,8 @@ def shrink_ops(ctx, exe, root, ops, bad_codes):
                     cands.append(cur[:i] + [("N", o[1], o[2], None)] + cur[i + 1:])
                 if o[0] == "N" and o[2] is not None:
                     cands.append(cur[:i] + [("N", o[1], None, o[3])] + cur[i + 1:])
+                if o[0] == "T":
+                    cands += [c for c in tree_simplifications(cur, i) if valid(c)]
                 # simpler accessors: both of one flavour, no interpolation arguments
                 if o[0] == "A":
                     # the same first argument given to td! / t! / t_plural! / t_format! (tracked-ness kept)
@@ -595,9 +780,12 @@ def shrink(ctx, exe, root, ops, bad_codes):
     for _ in range(2):
         cur = shrink_ops(ctx, exe, root, cur, bad_codes)
         changed = False
-        for simpler in ({"enable": False, "cookie": None, "accept": None}, {"enable": root["enable"], "cookie": None, "accept": None},
-                        {"enable": root["enable"], "cookie": root["cookie"], "accept": None}):
-            if simpler == root:
+        comp = bool(root.get("component"))
+        for simpler in ({"enable": False, "cookie": None, "accept": None, "component": False},
+                        {"enable": False, "cookie": None, "accept": None, "component": comp},
+                        {"enable": root["enable"], "cookie": None, "accept": None, "component": comp},
+                        {"enable": root["enable"], "cookie": root["cookie"], "accept": None, "component": comp}):
+            if simpler == dict(root, component=comp):
                 continue
             codes, _, _ = evaluate(ctx, exe, [(simpler, cur)], tag="c16s")
             if codes[0] in bad_codes:
@@ -614,7 +802,7 @@ def run(ctx):
     bindir = core.cargo_build("h_ctx")
     ok, problems = core.coq_audit(ctx, PROPS, THEOREMS)
     exe = C15.exe_path(bindir)
-    hist = list(CORPUS) + flavour_corpus("loc") + flavour_corpus("plural") + flavour_corpus("format")
+    hist = list(CORPUS) + tree_corpus() + flavour_corpus("loc") + flavour_corpus("plural") + flavour_corpus("format")
     n = 400 if ctx.quick else 8000
     for _ in range(n):
         hist.append((gen_root(ctx.rng), gen_history(ctx.rng)))
@@ -649,6 +837,28 @@ def run(ctx):
                       "contexts and accessor macros",
             "first_disagreeing_input": first, "disagreements": len(dis)}, no_input=True)
     hist_len, kinds, nontrivial = {}, {}, set()
+    # component forests: lookups by position, providers by shape
+    tstat = {"forests": 0, "providers": 0, "nested_providers": 0, "forests_with_sibling_providers": 0, "empty_providers": 0,
+             "wired_providers": 0, "cookie_providers": 0, "lookups_before_a_provider": 0, "lookups_inside_a_provider": 0,
+             "lookups_after_a_provider": 0, "forests_under_a_sub_context": 0, "forests_followed_by_a_set": 0,
+             "roots_created_by_I18nContextProvider": sum(1 for r, _ in hist if r.get("component"))}
+
+    def tree_stats(forest, depth):
+        seen = False
+        if sum(1 for n in forest if n != "L") >= 2:
+            tstat["forests_with_sibling_providers"] += 1
+        for n in forest:
+            if n == "L":
+                tstat["lookups_inside_a_provider" if depth else "lookups_after_a_provider" if seen else "lookups_before_a_provider"] += 1
+            else:
+                seen = True
+                tstat["providers"] += 1
+                tstat["nested_providers"] += depth > 0
+                tstat["empty_providers"] += not n[3]
+                tstat["wired_providers"] += n[1] is not None
+                tstat["cookie_providers"] += n[2] is not None
+                tree_stats(n[3], depth + 1)
+
     # per flavour: accessors created, of which rendered after a later set / untracked set on their own context, effects mounted
     fstat = {f: {"created": 0, "before_set": 0, "before_set_untracked": 0, "mounted": 0, "mounted_before_set": 0} for f in ALL_FL}
     by_depth = {0: 0, 1: 0, 2: 0}
@@ -660,9 +870,15 @@ def run(ctx):
             hctx.append(sh.handles[o[1]][0] if o[0] in ("A", "M", "S", "U") else None)
             if o[0] in ("A", "M"):
                 by_depth[sh.handles[o[1]][1]] += 1
+            if o[0] == "T" and sh.handles[o[1]][0] != 0:
+                tstat["forests_under_a_sub_context"] += 1
             sh.apply(o)
         for j, o in enumerate(ops):
             kinds[o[0]] = kinds.get(o[0], 0) + 1
+            if o[0] == "T":
+                tstat["forests"] += 1
+                tree_stats(o[2], 0)
+                tstat["forests_followed_by_a_set"] += any(p[0] in ("S", "U") for p in ops[j + 1:])
             if o[0] in ("A", "M"):
                 later_s = any(p[0] == "S" and hctx[j2] == hctx[j] for j2, p in enumerate(ops) if j2 > j)
                 later_u = any(p[0] == "U" and hctx[j2] == hctx[j] for j2, p in enumerate(ops) if j2 > j)
@@ -680,13 +896,16 @@ def run(ctx):
     core.write_evidence(ctx, {
         "evaluations": len(hist), "distinct_nontrivial": len(nontrivial),
         "steps_compared": sum(len(o) + 1 for _, o in hist),
-        "rule": "corpus histories first (3 hand-written, then systematic families: every t!-family flavour = 9 macros x 10 kinds of "
+        "rule": "corpus histories first (3 hand-written; 24 component-tree histories: Header / <I18nSubContextProvider>(Inner) / "
+                "Footer, nested, sibling, empty, wired and cookie providers x root by init_i18n_context or by <I18nContextProvider> x "
+                "rendered under the root or under a sub-context, lazy use_i18n() accessors on the first and last lookup, a set "
+                "through every handle; then systematic families: every t!-family flavour = 9 macros x 10 kinds of "
                 "first-argument expression x with/without interpolation arguments; every plural macro (t_/tu_plural!, "
                 "t_/tu_plural_ordinal!) and every format macro (t_/tu_format!, _string, _display) x 10 kinds of context "
                 "expression with rotating payloads (counts 0 1 2 3 5 11 21 100; number/date/list values); each on every scope "
                 "depth, created before a set (to ar), an untracked set (to ru) and a set through another view (to fr), half of them "
                 "mounted in an effect, alternately on the root and on a sub-context), then random histories with random flavours "
-                "of all families: <=4 contexts (root + sub-contexts below any context, with/without a "
+                "of all families: <=6 contexts (root + sub-contexts below any context, with/without a "
                 "wired caller signal, with/without a cookie name), <=40 ops among set/set_untracked/scope/accessor/mount/new signal/"
                 "signal write/flush/observe, flushes interleaved at random; random root options (cookies on/off, Cookie and "
                 "Accept-Language headers); non-trivial = at least one set and one sub-context; distinct by scenario line",
@@ -694,7 +913,7 @@ def run(ctx):
         "traces_validated_against_impl": len(hist) - len(broken),
         "disagreements": len(dis), "spec_failures_on_impl": len(bad), "harness_panics_or_unstable": len(broken),
         "input_distribution": {
-            "history_length": hist_len, "operation_kinds": kinds,
+            "history_length": hist_len, "operation_kinds": kinds, "component_forests": tstat,
             "accessor_flavours": {
                 "flavours_total": len(ALL_FL),
                 "flavours_by_family": {k: len(v) for k, v in FAMILY_FL.items()},
@@ -723,6 +942,8 @@ def run(ctx):
         "leptos' scheduler is observed, not modelled: a flush is 12 executor ticks and is checked to be quiescent (a second flush "
         "changes nothing); effects only run at those points in a single-threaded native run",
         "harness build = ssr feature + reactive_graph/effects: not a production configuration",
+        "component forests are observed once after rendering; the observations after each of the operations a forest is checked "
+        "as are that observation cut to the handles and contexts existing then (nothing is set or flushed in between)",
         "'observe' is read as 'when evaluated after the call'; a mounted effect is not re-run by set_locale_untracked (DESIGN §5 C16)",
         "frozen observers (td! over a Locale value bound at creation, effects over untracked accessors) are compared with the model "
         "only; the property demands nothing of them",
@@ -741,7 +962,7 @@ def replay(ctx, path):
         print(json.dumps(obj, indent=1))
         return 0
     bindir = core.cargo_build("h_ctx")
-    ops = [tuple(o) for o in fi["ops"]]
+    ops = [tup(o) for o in fi["ops"]]
     codes, metas, names = evaluate(ctx, C15.exe_path(bindir), [(fi["root"], ops)], tag="c16r")
     print("root:", json.dumps(fi["root"]))
     print("ops:", " ".join(op_word(o) for o in ops))
@@ -749,6 +970,8 @@ def replay(ctx, path):
         if o[0] in ("A", "M"):
             print("  op %d %s on handle %d: %s" % (j, "accessors" if o[0] == "A" else "mounted effect over", o[1],
                                                  " ; ".join(fl_name(f) for f in o[2:])))
+        if o[0] == "T":
+            print("  op %d components rendered under the owner of handle %d: %s" % (j, o[1], forest_show(o[2])))
     print("implementation trace:", metas[0]["impl_trace"])
     if LAST.get("items"):
         c = "(t_case %s)" % LAST["items"][0]
@@ -763,14 +986,14 @@ def replay(ctx, path):
             ctx, LAST["preamble"],
             "let c := %s in map (fun o => (o_handles (fst o), o_accs (fst o), o_watch (fst o), o_cookies (fst o), snd o)) "
             "(xmodel_trace (init_main true (x_app c) (x_main c)) "
-            "(mo_enable_cookie (x_main c)) (map (xcook (x_app c) (x_main c)) (x_ops c)))" % c))
+            "(mo_enable_cookie (x_main c)) (flat_map (xcook (x_app c) (x_main c)) (x_ops c)))" % c))
         for nm, fld, sel in (("first trace: untracked reads, first accessor of each pair", "x_impl_a", "true"),
                              ("second trace: tracked reads, second accessor of each pair", "x_impl_b", "false")):
             print("first differing step (%s):" % nm, core.coq_show(
                 ctx, LAST["preamble"],
                 "let tc := %s in let c := t_case tc in "
                 "let m := xmodel_trace (init_main true (x_app c) (x_main c)) (mo_enable_cookie (x_main c)) "
-                "(map (xcook (x_app c) (x_main c)) (x_ops c)) in xfirst_diff 0 m (dec_trace (t_dec tc) %s m (%s c))"
+                "(flat_map (xcook (x_app c) (x_main c)) (x_ops c)) in xfirst_diff 0 m (dec_trace (t_dec tc) %s m (expand_trace (x_app c) (x_main c) (x_ops c) (%s c)))"
                 % (LAST["items"][0], sel, fld)))
     print("check code (0 ok, 2 model differs, 3 spec violated, 4 panic/unstable):", codes[0])
     return 1 if codes[0] in (3, 4) else 0
